@@ -1,2 +1,1115 @@
-(* Proofs for C10. *)
-From WI Require Import Lib.Base Lib.Info Model.Walk.
+(* Proofs for C10 (recursive scans). *)
+From Coq Require Import Permutation ZifyN ZifyNat ZifyBool.
+From WI Require Import Lib.Base Lib.Info Lib.Strings Model.Render Model.Dispatch Model.Walk.
+Open Scope N_scope.
+
+(* ---------- induction over trees (nested lists of children) ---------- *)
+Section node_ind2.
+  Variable P : node -> Prop.
+  Hypothesis Hreg : forall a c, P (Reg a c).
+  Hypothesis Hdir : forall a ch, Forall P ch -> P (Dir a ch).
+  Hypothesis Hlf : forall a c, P (LinkFile a c).
+  Hypothesis Hld : forall a ch, Forall P ch -> P (LinkDir a ch).
+  Hypothesis Hln : forall a, P (LinkNone a).
+  Hypothesis Hfifo : forall a, P (Fifo a).
+  Hypothesis Hsock : forall a, P (Sock a).
+  Fixpoint node_ind2 (n : node) : P n :=
+    let go := fix go (l : list node) : Forall P l :=
+      match l with
+      | [] => Forall_nil P
+      | x :: r => Forall_cons x (node_ind2 x) (go r)
+      end in
+    match n with
+    | Reg a c => Hreg a c
+    | Dir a ch => Hdir a ch (go ch)
+    | LinkFile a c => Hlf a c
+    | LinkDir a ch => Hld a ch (go ch)
+    | LinkNone a => Hln a
+    | Fifo a => Hfifo a
+    | Sock a => Hsock a
+    end.
+End node_ind2.
+
+(* ---------- the byte-wise order is a total order ---------- *)
+Lemma bytes_leb_refl : forall a, bytes_leb a a = true.
+Proof. induction a as [|x a IH]; cbn; [reflexivity|]. rewrite N.ltb_irrefl. exact IH. Qed.
+
+Lemma bytes_leb_total : forall a b, bytes_leb a b = false -> bytes_leb b a = true.
+Proof.
+  induction a as [|x a IH]; intros [|y b]; cbn; try congruence.
+  destruct (x <? y) eqn:E1; [discriminate|].
+  destruct (y <? x) eqn:E2; [reflexivity|].
+  apply IH.
+Qed.
+
+Lemma bytes_leb_trans : forall a b c, bytes_leb a b = true -> bytes_leb b c = true -> bytes_leb a c = true.
+Proof.
+  induction a as [|x a IH]; intros [|y b] [|z c]; cbn; try congruence.
+  destruct (x <? y) eqn:E1.
+  - intros _. destruct (y <? z) eqn:E2.
+    + intros _. assert (x <? z = true) as -> by lia. reflexivity.
+    + destruct (z <? y) eqn:E3; [discriminate|]. intros _.
+      assert (x <? z = true) as -> by lia. reflexivity.
+  - destruct (y <? x) eqn:E2; [discriminate|]. intros Hab.
+    assert (x = y) by lia. subst y.
+    destruct (x <? z) eqn:E3; [reflexivity|].
+    destruct (z <? x) eqn:E4; [discriminate|].
+    apply IH. exact Hab.
+Qed.
+
+Lemma bytes_leb_antisym : forall a b, bytes_leb a b = true -> bytes_leb b a = true -> a = b.
+Proof.
+  induction a as [|x a IH]; intros [|y b]; cbn; try congruence.
+  destruct (x <? y) eqn:E1.
+  - assert (y <? x = false) as -> by lia. discriminate.
+  - destruct (y <? x) eqn:E2; [discriminate|].
+    intros H1 H2. assert (x = y) by lia. subst. f_equal. now apply IH.
+Qed.
+
+(* ---------- insertion sort: sorted, a permutation, commutes with a map on the values ---------- *)
+Fixpoint sorted_names (l : list bytes) : bool :=
+  match l with
+  | a :: (b :: _) as r => bytes_leb a b && sorted_names r
+  | _ => true
+  end.
+
+Section SortFacts.
+  Context {A : Type}.
+
+  Lemma insert_by_perm : forall k (v : A) l, Permutation (insert_by k v l) ((k, v) :: l).
+  Proof.
+    induction l as [|[k' v'] l IH]; cbn; [apply Permutation_refl|].
+    destruct (bytes_leb k k'); [apply Permutation_refl|].
+    eapply perm_trans; [apply perm_skip, IH|apply perm_swap].
+  Qed.
+
+  Lemma sort_by_perm : forall l : list (bytes * A), Permutation (sort_by l) l.
+  Proof.
+    induction l as [|[k v] l IH]; cbn; [constructor|].
+    eapply perm_trans; [apply insert_by_perm|]. now apply perm_skip.
+  Qed.
+
+  Lemma insert_by_sorted : forall k (v : A) l,
+    sorted_names (map fst l) = true -> sorted_names (map fst (insert_by k v l)) = true.
+  Proof.
+    induction l as [|[k' v'] l IH]; intros Hs; [reflexivity|].
+    cbn [insert_by]. destruct (bytes_leb k k') eqn:E.
+    - cbn [map fst sorted_names]. cbn [map fst] in Hs. rewrite E. exact Hs.
+    - apply bytes_leb_total in E.
+      cbn [map fst] in *.
+      assert (Hl : sorted_names (map fst l) = true).
+      { destruct l as [|[k2 v2] l2]; [reflexivity|]. cbn [map fst sorted_names] in Hs.
+        apply andb_prop in Hs. apply Hs. }
+      specialize (IH Hl).
+      destruct l as [|[k2 v2] l2].
+      + cbn. rewrite E. reflexivity.
+      + cbn [insert_by] in *. destruct (bytes_leb k k2) eqn:E2.
+        * cbn [map fst sorted_names] in *. rewrite E, E2. cbn [andb].
+          apply andb_prop in Hs. apply Hs.
+        * cbn [map fst sorted_names] in *. apply andb_prop in Hs as [H1 H2]. rewrite H1. cbn [andb].
+          exact IH.
+  Qed.
+
+  Lemma sort_by_sorted : forall l : list (bytes * A), sorted_names (map fst (sort_by l)) = true.
+  Proof.
+    induction l as [|[k v] l IH]; [reflexivity|]. cbn [sort_by]. now apply insert_by_sorted.
+  Qed.
+End SortFacts.
+
+Lemma insert_by_map : forall {A B} (g : A -> B) k v (l : list (bytes * A)),
+  insert_by k (g v) (map (fun kv => (fst kv, g (snd kv))) l)
+  = map (fun kv => (fst kv, g (snd kv))) (insert_by k v l).
+Proof.
+  intros A B g k v. induction l as [|[k' v'] l IH]; [reflexivity|].
+  cbn [map insert_by fst snd]. destruct (bytes_leb k k'); [reflexivity|].
+  cbn [map fst snd]. now rewrite IH.
+Qed.
+
+Lemma sort_by_map : forall {A B} (g : A -> B) (l : list (bytes * A)),
+  sort_by (map (fun kv => (fst kv, g (snd kv))) l) = map (fun kv => (fst kv, g (snd kv))) (sort_by l).
+Proof.
+  intros A B g. induction l as [|[k v] l IH]; [reflexivity|].
+  cbn [map sort_by fst snd]. rewrite IH. apply insert_by_map.
+Qed.
+
+(* the sorted listing, whatever is computed per entry *)
+Lemma sort_by_keyed : forall {B} (g : node -> B) (ch : list node),
+  sort_by (map (fun c => (node_name c, g c)) ch) = map (fun c => (node_name c, g c)) (read_dir ch).
+Proof.
+  intros B g ch. unfold read_dir.
+  replace (map (fun c => (node_name c, g c)) ch)
+    with (map (fun kv : bytes * node => (fst kv, g (snd kv))) (keyed ch)).
+  2:{ unfold keyed. rewrite map_map. reflexivity. }
+  rewrite sort_by_map. rewrite map_map.
+  assert (H : Forall (fun kv : bytes * node => fst kv = node_name (snd kv)) (sort_by (keyed ch))).
+  { eapply Permutation_Forall; [apply Permutation_sym, sort_by_perm|].
+    unfold keyed. apply Forall_forall. intros kv Hin. apply in_map_iff in Hin as [c [<- _]]. reflexivity. }
+  induction (sort_by (keyed ch)) as [|kv l IH]; [reflexivity|].
+  inversion H; subst. cbn [map]. rewrite IH by assumption. now rewrite H2.
+Qed.
+
+Lemma read_dir_perm : forall ch, Permutation (read_dir ch) ch.
+Proof.
+  intros ch. unfold read_dir.
+  eapply perm_trans; [apply Permutation_map, sort_by_perm|].
+  unfold keyed. rewrite map_map. cbn. rewrite map_id. apply Permutation_refl.
+Qed.
+
+Lemma read_dir_In : forall ch c, In c (read_dir ch) <-> In c ch.
+Proof.
+  intros. split; apply Permutation_in; [apply read_dir_perm|apply Permutation_sym, read_dir_perm].
+Qed.
+
+Lemma read_dir_sorted : forall ch, sorted_names (map node_name (read_dir ch)) = true.
+Proof.
+  intros ch. pose proof (sort_by_keyed (fun c => c) ch) as H.
+  pose proof (sort_by_sorted (map (fun c => (node_name c, c)) ch)) as Hs.
+  rewrite H in Hs. rewrite map_map in Hs. exact Hs.
+Qed.
+
+Lemma read_dir_Forall : forall (P : node -> Prop) ch, Forall P ch -> Forall P (read_dir ch).
+Proof. intros P ch H. eapply Permutation_Forall; [apply Permutation_sym, read_dir_perm|exact H]. Qed.
+
+(* ---------- sort_tree: every listing sorted, nothing lost ---------- *)
+Fixpoint tree_sorted (n : node) : bool :=
+  match n with
+  | Dir _ ch | LinkDir _ ch => sorted_names (map node_name ch) && forallb tree_sorted ch
+  | _ => true
+  end.
+
+Lemma sort_tree_name : forall n, node_name (sort_tree n) = node_name n.
+Proof. destruct n; reflexivity. Qed.
+
+Lemma sort_listing_eq : forall ch, sort_listing ch = map sort_tree (read_dir ch).
+Proof.
+  intros ch. unfold sort_listing. rewrite (sort_by_keyed sort_tree). rewrite map_map. reflexivity.
+Qed.
+
+Lemma sort_tree_dir : forall a ch, sort_tree (Dir a ch) = Dir a (map sort_tree (read_dir ch)).
+Proof. intros. cbn [sort_tree]. fold (sort_listing ch). now rewrite sort_listing_eq. Qed.
+
+Lemma sort_tree_linkdir : forall a ch, sort_tree (LinkDir a ch) = LinkDir a (map sort_tree (read_dir ch)).
+Proof. intros. cbn [sort_tree]. fold (sort_listing ch). now rewrite sort_listing_eq. Qed.
+
+Lemma sort_tree_sorted : forall n, tree_sorted (sort_tree n) = true.
+Proof.
+  induction n using node_ind2; try reflexivity.
+  - rewrite sort_tree_dir. cbn [tree_sorted]. rewrite map_map.
+    rewrite (map_ext (fun x => node_name (sort_tree x)) node_name sort_tree_name).
+    rewrite read_dir_sorted. cbn [andb]. rewrite forallb_forall. intros x Hx.
+    apply in_map_iff in Hx as [c [<- Hc]]. apply (proj1 (read_dir_In _ _)) in Hc.
+    rewrite Forall_forall in H. now apply H.
+  - rewrite sort_tree_linkdir. cbn [tree_sorted]. rewrite map_map.
+    rewrite (map_ext (fun x => node_name (sort_tree x)) node_name sort_tree_name).
+    rewrite read_dir_sorted. cbn [andb]. rewrite forallb_forall. intros x Hx.
+    apply in_map_iff in Hx as [c [<- Hc]]. apply (proj1 (read_dir_In _ _)) in Hc.
+    rewrite Forall_forall in H. now apply H.
+Qed.
+
+Lemma sort_listing_sorted : forall ch,
+  sorted_names (map node_name (sort_listing ch)) = true /\ forallb tree_sorted (sort_listing ch) = true.
+Proof.
+  intros ch. pose proof (sort_tree_sorted (Dir [] ch)) as H. rewrite sort_tree_dir in H.
+  cbn [tree_sorted] in H. rewrite sort_listing_eq. now apply andb_prop in H.
+Qed.
+
+Lemma Permutation_flat_map_pointwise : forall {A B} (f g : A -> list B) l,
+  Forall (fun x => Permutation (f x) (g x)) l -> Permutation (flat_map f l) (flat_map g l).
+Proof.
+  intros A B f g l H. induction H; cbn; [constructor|]. now apply Permutation_app.
+Qed.
+
+(* sorting the listings only reorders the enumeration: every regular file of the tree occurs
+   in the sorted enumeration exactly as often as in the tree itself *)
+Lemma files_of_sort_tree_perm : forall n f, Permutation (files_of (sort_tree n) f) (files_of n f).
+Proof.
+  induction n using node_ind2; intros f; try apply Permutation_refl.
+  rewrite sort_tree_dir. cbn [files_of]. rewrite flat_map_concat_map, map_map, <- flat_map_concat_map.
+  eapply perm_trans.
+  - apply Permutation_flat_map_pointwise. apply read_dir_Forall.
+    eapply Forall_impl; [|exact H]. intros c Hc. apply Hc.
+  - apply Permutation_flat_map. apply read_dir_perm.
+Qed.
+
+Lemma dfs_perm : forall ch d, Permutation (dfs_sorted_regular_files ch d) (files_in ch d).
+Proof.
+  intros ch d. unfold dfs_sorted_regular_files, files_in. rewrite sort_listing_eq.
+  rewrite flat_map_concat_map, map_map, <- flat_map_concat_map.
+  eapply perm_trans.
+  - apply Permutation_flat_map_pointwise. apply Forall_forall. intros c _. apply files_of_sort_tree_perm.
+  - apply Permutation_flat_map. apply read_dir_perm.
+Qed.
+
+(* ---------- sequencing ---------- *)
+Lemma seq_all_none : forall l : list res,
+  Forall (fun r => snd r = None) l -> seq_all l = (concat (map fst l), None).
+Proof.
+  induction 1 as [|[e s] l Hx Hl IH]; [reflexivity|].
+  cbn in Hx. subst s. cbn [seq_all seq map concat fst]. rewrite IH. reflexivity.
+Qed.
+
+Lemma reports_app : forall a b, reports (a ++ b) = reports a ++ reports b.
+Proof. intros. unfold reports. apply filter_app. Qed.
+
+Lemma reports_concat : forall l, reports (concat l) = concat (map reports l).
+Proof.
+  induction l as [|x l IH]; [reflexivity|]. cbn [concat map]. rewrite reports_app, IH. reflexivity.
+Qed.
+
+Definition report_of_pair (pc : bytes * bytes) : event := Report (fst pc) (snd pc).
+
+(* ---------- the repaired walk ---------- *)
+Lemma walk_entry_dir : forall q a ch f rem,
+  walk_entry q (Dir a ch) f rem
+  = walk_dir q (map (fun c => (node_name c, walk_entry q c)) (read_dir ch)) (path_join f a) (rem - 1)%Z.
+Proof. intros. cbn [walk_entry]. now rewrite sort_by_keyed. Qed.
+
+Lemma walk_top_eq : forall q ch d,
+  walk_top q ch d = walk_dir q (map (fun c => (node_name c, walk_entry q c)) (read_dir ch)) d max_depth.
+Proof. intros. unfold walk_top. now rewrite sort_by_keyed. Qed.
+
+Lemma walk_dir_entries : forall q (g : node -> bytes -> Z -> res) l p rem,
+  (0 <= rem)%Z -> too_long p = false ->
+  walk_dir q (map (fun c => (node_name c, g c)) l) p rem = seq_all (map (fun c => g c p rem) l).
+Proof.
+  intros q g l p rem Hr Hp. unfold walk_dir.
+  assert ((rem <? 0)%Z = false) as -> by lia. rewrite Hp. rewrite map_map. reflexivity.
+Qed.
+
+(* C10_bad_entries, part 1: after the repairs no entry of any kind ends a scan *)
+Lemma other_entry_continues : forall p k, snd (other_entry repaired p k) = None.
+Proof. intros p k. unfold other_entry, repaired. cbn. destruct k; reflexivity. Qed.
+
+Lemma walk_dir_continues : forall subs p rem,
+  Forall (fun s : bytes * (bytes -> Z -> res) => forall f r, snd (snd s f r) = None) subs ->
+  snd (walk_dir repaired subs p rem) = None.
+Proof.
+  intros subs p rem H. unfold walk_dir.
+  destruct (rem <? 0)%Z; [reflexivity|]. destruct (too_long p); [reflexivity|].
+  rewrite seq_all_none; [reflexivity|].
+  apply Forall_forall. intros r Hr. apply in_map_iff in Hr as [s [<- Hs]].
+  rewrite Forall_forall in H. now apply H.
+Qed.
+
+Lemma walk_entry_continues : forall n f rem, snd (walk_entry repaired n f rem) = None.
+Proof.
+  induction n using node_ind2; intros f rem;
+    try (cbn [walk_entry]; apply other_entry_continues).
+  rewrite walk_entry_dir. apply walk_dir_continues.
+  apply Forall_forall. intros s Hs. apply in_map_iff in Hs as [c [<- Hc]].
+  apply (proj1 (read_dir_In _ _)) in Hc. rewrite Forall_forall in H. cbn [snd]. now apply H.
+Qed.
+
+Lemma walk_top_continues : forall ch d, snd (walk_top repaired ch d) = None.
+Proof.
+  intros. rewrite walk_top_eq. apply walk_dir_continues.
+  apply Forall_forall. intros s Hs. apply in_map_iff in Hs as [c [<- Hc]].
+  cbn [snd]. intros. apply walk_entry_continues.
+Qed.
+
+(* ---------- what a scan reports ---------- *)
+Lemma height_le_in : forall ch c, In c ch -> (height c <= height_in ch)%nat.
+Proof.
+  induction ch as [|x ch IH]; intros c []; cbn [height_in fold_right].
+  - subst. lia.
+  - specialize (IH c H). unfold height_in in IH. lia.
+Qed.
+
+Lemma height_dir : forall a ch, height (Dir a ch) = S (height_in ch).
+Proof. reflexivity. Qed.
+
+(* the children of a directory, given the statement for each child *)
+Lemma walk_children_reports : forall ch p rem,
+  Forall (fun c => forall f r, (Z.of_nat (height c) <= r)%Z -> paths_ok c f = true ->
+            reports (fst (walk_entry repaired c f r)) = map report_of_pair (files_of (sort_tree c) f)) ch ->
+  (Z.of_nat (height_in ch) <= rem)%Z -> too_long p = false ->
+  forallb (fun c => paths_ok c p) ch = true ->
+  reports (fst (walk_dir repaired (map (fun c => (node_name c, walk_entry repaired c)) (read_dir ch)) p rem))
+  = map report_of_pair (flat_map (fun c => files_of c p) (map sort_tree (read_dir ch))).
+Proof.
+  intros ch p rem IH Hh Hp Hok.
+  rewrite walk_dir_entries by (assumption || lia).
+  rewrite seq_all_none.
+  2:{ apply Forall_forall. intros r Hr. apply in_map_iff in Hr as [c [<- _]]. apply walk_entry_continues. }
+  cbn [fst]. rewrite reports_concat. rewrite !map_map.
+  rewrite flat_map_concat_map, concat_map, !map_map. f_equal.
+  apply map_ext_in. intros c Hc. apply (proj1 (read_dir_In _ _)) in Hc.
+  rewrite Forall_forall in IH. apply IH; [assumption| |].
+  - pose proof (height_le_in _ _ Hc). lia.
+  - rewrite forallb_forall in Hok. now apply Hok.
+Qed.
+
+Lemma walk_entry_reports : forall n f rem,
+  (Z.of_nat (height n) <= rem)%Z -> paths_ok n f = true ->
+  reports (fst (walk_entry repaired n f rem)) = map report_of_pair (files_of (sort_tree n) f).
+Proof.
+  induction n using node_ind2; intros f rem Hh Hok;
+    try (cbn [walk_entry node_name sort_tree files_of paths_ok] in *;
+         unfold stat_at; rewrite andb_true_r in Hok; apply negb_true_iff in Hok; rewrite Hok;
+         reflexivity).
+  rewrite walk_entry_dir, sort_tree_dir. cbn [files_of].
+  cbn [paths_ok node_name] in Hok. apply andb_prop in Hok as [Hp Hch]. apply negb_true_iff in Hp.
+  rewrite height_dir in Hh.
+  apply walk_children_reports; try assumption. lia.
+Qed.
+
+Lemma walk_top_reports : forall ch d,
+  (Z.of_nat (height_in ch) <= max_depth)%Z -> paths_ok_in ch d = true ->
+  reports (fst (walk_top repaired ch d)) = map report_of_pair (dfs_sorted_regular_files ch d).
+Proof.
+  intros ch d Hh Hok. rewrite walk_top_eq. unfold dfs_sorted_regular_files, files_in.
+  rewrite sort_listing_eq. unfold paths_ok_in in Hok. apply andb_prop in Hok as [Hp Hch].
+  apply negb_true_iff in Hp.
+  apply walk_children_reports; try assumption.
+  apply Forall_forall. intros c _ f r. apply walk_entry_reports.
+Qed.
+
+(* ---------- flags ---------- *)
+Lemma parse_flags_plain : forall r v d rest, plain_arg d = true ->
+  parse_flags r v (d :: rest) = FOk r v (d :: rest).
+Proof.
+  intros r v [|c0 [|c s']] rest H; cbn in H; try discriminate; cbn [parse_flags]; [reflexivity|].
+  now rewrite H.
+Qed.
+
+Lemma parse_flags_r : forall r v rest, parse_flags r v (bs "-r" :: rest) = parse_flags true v rest.
+Proof. reflexivity. Qed.
+
+Lemma plain_not_stdin : forall d, plain_arg d = true -> is_nilb d || bytes_eqb d [45] = false.
+Proof.
+  intros [|c [|c' d]] H; cbn in *; try discriminate.
+  - apply negb_true_iff in H. rewrite H. reflexivity.
+  - apply negb_true_iff in H. rewrite H. reflexivity.
+Qed.
+
+Definition argv_of (recursive : bool) (args : list bytes) : list bytes :=
+  if recursive then bs "-r" :: args else args.
+
+Lemma main_run_args : forall q fs r d rest stdin, plain_arg d = true ->
+  main_run q fs (argv_of r (d :: rest)) stdin = finish (main_loop q fs r (d :: rest)).
+Proof.
+  intros q fs r d rest stdin H. unfold main_run, argv_of.
+  destruct r; [rewrite parse_flags_r|]; rewrite (parse_flags_plain _ _ _ _ H);
+    cbn [negb]; rewrite (plain_not_stdin _ H); reflexivity.
+Qed.
+
+(* ---------- every argument scanned: files and directories, with -r ---------- *)
+Definition arg_files (fs : list node) (a : bytes) : list (bytes * bytes) :=
+  match resolve fs a with
+  | SReg c => [(a, c)]
+  | SDir ch => dfs_sorted_regular_files ch a
+  | _ => []
+  end.
+
+(* an argument names a regular file, or a directory within the limits *)
+Definition arg_ok (fs : list node) (a : bytes) : bool :=
+  match resolve fs a with
+  | SReg _ => true
+  | SDir ch => (Z.of_nat (height_in ch) <=? max_depth)%Z && paths_ok_in ch a
+  | _ => false
+  end.
+
+Lemma seq_none : forall e k, seq (e, None) k = (e ++ fst k, snd k).
+Proof. reflexivity. Qed.
+
+Lemma main_loop_reports : forall fs args, forallb (arg_ok fs) args = true ->
+  snd (main_loop repaired fs true args) = None /\
+  reports (fst (main_loop repaired fs true args)) = map report_of_pair (flat_map (arg_files fs) args).
+Proof.
+  induction args as [|a args IH]; intros H; [split; reflexivity|].
+  cbn [forallb] in H. apply andb_prop in H as [Ha Hr]. destruct (IH Hr) as [IH1 IH2].
+  cbn [main_loop flat_map]. unfold arg_ok in Ha. unfold arg_files at 1.
+  destruct (resolve fs a) as [c|ch| | |] eqn:E; try discriminate.
+  - cbn [inspect_file]. rewrite seq_none. cbn [fst snd]. split; [assumption|].
+    rewrite map_app, reports_app, IH2. reflexivity.
+  - apply andb_prop in Ha as [Hh Hp]. apply Z.leb_le in Hh.
+    destruct (walk_top repaired ch a) as [e s] eqn:Ew.
+    pose proof (walk_top_continues ch a) as Hs. rewrite Ew in Hs. cbn in Hs. subst s.
+    rewrite seq_none. cbn [fst snd]. split; [assumption|].
+    rewrite map_app, reports_app, IH2. f_equal.
+    pose proof (walk_top_reports ch a Hh Hp) as Hw. rewrite Ew in Hw. exact Hw.
+Qed.
+
+Lemma scan_arguments : forall fs d rest stdin,
+  plain_arg d = true -> forallb (arg_ok fs) (d :: rest) = true ->
+  exists es, main_run repaired fs (bs "-r" :: d :: rest) stdin = (es, Exit 0) /\
+             reports es = map report_of_pair (flat_map (arg_files fs) (d :: rest)).
+Proof.
+  intros fs d rest stdin Hd Hok.
+  pose proof (main_run_args repaired fs true d rest stdin Hd) as Hm. cbn [argv_of] in Hm.
+  destruct (main_loop_reports fs (d :: rest) Hok) as [H1 H2].
+  destruct (main_loop repaired fs true (d :: rest)) as [e s] eqn:E. cbn in H1. subst s.
+  exists e. split; [rewrite Hm; reflexivity|exact H2].
+Qed.
+
+Lemma scan_one_directory : forall fs d ch stdin,
+  plain_arg d = true -> resolve fs d = SDir ch ->
+  (Z.of_nat (height_in ch) <= max_depth)%Z -> paths_ok_in ch d = true ->
+  exists es, main_run repaired fs [bs "-r"; d] stdin = (es, Exit 0) /\
+             reports es = map report_of_pair (dfs_sorted_regular_files ch d).
+Proof.
+  intros fs d ch stdin Hd Hr Hh Hp.
+  destruct (scan_arguments fs d [] stdin Hd) as [es [H1 H2]].
+  - cbn [forallb]. unfold arg_ok. rewrite Hr, Hp. apply Z.leb_le in Hh. rewrite Hh. reflexivity.
+  - exists es. split; [assumption|]. rewrite H2. cbn [flat_map]. unfold arg_files. rewrite Hr.
+    now rewrite app_nil_r.
+Qed.
+
+(* ---------- standard output ---------- *)
+Section Out.
+  Variable body : bytes -> bytes -> bytes.
+  Variable argv0 : bytes.
+
+  Lemma stdout_of_reports : forall es, stdout_of body argv0 es = stdout_of body argv0 (reports es).
+  Proof.
+    induction es as [|e es IH]; [reflexivity|].
+    unfold stdout_of, reports in *. cbn [flat_map filter].
+    destruct e; cbn [is_report flat_map out_of app]; rewrite IH; reflexivity.
+  Qed.
+
+  Definition report_text (pc : bytes * bytes) : bytes := fst pc ++ [58; 32] ++ body (fst pc) (snd pc).
+
+  Lemma stdout_of_pairs : forall l, stdout_of body argv0 (map report_of_pair l) = concat (map report_text l).
+  Proof.
+    induction l as [|pc l IH]; [reflexivity|].
+    unfold stdout_of in *. cbn [map flat_map concat]. rewrite IH. reflexivity.
+  Qed.
+
+  (* the run on one regular file alone *)
+  Lemma single_file_run : forall q fs p c stdin, plain_arg p = true -> resolve fs p = SReg c ->
+    main_run q fs [p] stdin = ([Report p c], Exit 0).
+  Proof.
+    intros q fs p c stdin Hp Hr.
+    pose proof (main_run_args q fs false p [] stdin Hp) as Hm. cbn [argv_of] in Hm. rewrite Hm.
+    cbn [main_loop]. rewrite Hr. reflexivity.
+  Qed.
+
+  Lemma single_file_stdout : forall q fs p c stdin, plain_arg p = true -> resolve fs p = SReg c ->
+    stdout_of body argv0 (fst (main_run q fs [p] stdin)) = report_text (p, c).
+  Proof.
+    intros. erewrite single_file_run by eassumption. unfold stdout_of, report_text. cbn.
+    now rewrite app_nil_r.
+  Qed.
+
+  Lemma scan_stdout : forall fs d rest stdin,
+    plain_arg d = true -> forallb (arg_ok fs) (d :: rest) = true ->
+    stdout_of body argv0 (fst (main_run repaired fs (bs "-r" :: d :: rest) stdin))
+    = concat (map report_text (flat_map (arg_files fs) (d :: rest))).
+  Proof.
+    intros fs d rest stdin Hd Hok.
+    destruct (scan_arguments fs d rest stdin Hd Hok) as [es [H1 H2]].
+    rewrite H1. cbn [fst]. rewrite stdout_of_reports, H2. apply stdout_of_pairs.
+  Qed.
+End Out.
+
+(* ---------- refusals ---------- *)
+(* arguments that are regular files are reported, then the first directory without -r
+   (or the first path that does not exist) ends the run with status 1 *)
+Lemma main_loop_files_then : forall q fs r pre a rest,
+  Forall (fun pc => resolve fs (fst pc) = SReg (snd pc)) pre ->
+  main_loop q fs r (map fst pre ++ a :: rest)
+  = seq (map report_of_pair pre, None) (main_loop q fs r (a :: rest)).
+Proof.
+  intros q fs r pre a rest H. induction H as [|[p c] pre Hp Hpre IH]; cbn [map app fst snd].
+  - destruct (main_loop q fs r (a :: rest)) as [e s]. reflexivity.
+  - cbn [main_loop]. cbn [fst snd] in Hp. rewrite Hp. cbn [inspect_file]. rewrite IH.
+    rewrite !seq_none. reflexivity.
+Qed.
+
+Lemma refuse_directory : forall q fs pre d ch rest stdin,
+  plain_arg (hd d (map fst pre)) = true ->
+  Forall (fun pc => resolve fs (fst pc) = SReg (snd pc)) pre ->
+  resolve fs d = SDir ch ->
+  main_run q fs (map fst pre ++ d :: rest) stdin = (map report_of_pair pre ++ [Refusal d], Exit 1).
+Proof.
+  intros q fs pre d ch rest stdin Hpl Hpre Hd.
+  assert (Hm : main_run q fs (map fst pre ++ d :: rest) stdin
+               = finish (main_loop q fs false (map fst pre ++ d :: rest))).
+  { destruct pre as [|[p c] pre]; cbn [map app hd fst] in *;
+      apply (main_run_args q fs false _ _ stdin Hpl). }
+  rewrite Hm, main_loop_files_then by assumption. cbn [main_loop]. rewrite Hd. reflexivity.
+Qed.
+
+Lemma refuse_missing : forall q fs r pre p rest stdin,
+  plain_arg (hd p (map fst pre)) = true ->
+  Forall (fun pc => resolve fs (fst pc) = SReg (snd pc)) pre ->
+  resolve fs p = SMissing ->
+  main_run q fs (argv_of r (map fst pre ++ p :: rest)) stdin = (map report_of_pair pre ++ [LogLine p], Exit 1).
+Proof.
+  intros q fs r pre p rest stdin Hpl Hpre Hp.
+  assert (Hm : main_run q fs (argv_of r (map fst pre ++ p :: rest)) stdin
+               = finish (main_loop q fs r (map fst pre ++ p :: rest))).
+  { destruct pre as [|[p0 c] pre]; cbn [map app hd fst] in *;
+      apply (main_run_args q fs r _ _ stdin Hpl). }
+  rewrite Hm, main_loop_files_then by assumption. cbn [main_loop]. rewrite Hp. reflexivity.
+Qed.
+
+(* ---------- standard input ---------- *)
+Lemma stdin_run : forall q fs r rest stdin,
+  match rest with [] => True | a :: _ => a = [] \/ a = [45] end ->
+  main_run q fs (argv_of r rest) stdin = ([StdinReport stdin], Exit 0).
+Proof.
+  intros q fs r rest stdin H. unfold main_run, argv_of.
+  assert (Hp : parse_flags r false rest = FOk r false rest /\ parse_flags true false rest = FOk true false rest).
+  { destruct rest as [|a rest]; [split; reflexivity|]. destruct H as [->| ->]; split; reflexivity. }
+  destruct Hp as [Hp1 Hp2].
+  destruct r; [rewrite parse_flags_r, Hp2|rewrite Hp1]; cbn [negb];
+    (destruct rest as [|a rest]; [reflexivity|]; destruct H as [->| ->]; reflexivity).
+Qed.
+
+(* a name that no name pattern of the format table matches *)
+Definition name_neutral_in (t : list row) (p : bytes) : bool :=
+  forallb (fun r => match matches_name r p with Ok false => true | _ => false end) t.
+Definition name_neutral := name_neutral_in table.
+
+Lemma candidates_neutral : forall sniff t a b data,
+  name_neutral_in t a = true -> name_neutral_in t b = true ->
+  candidates_in sniff t a data = candidates_in sniff t b data.
+Proof.
+  intros sniff t a b data. induction t as [|r t IH]; intros Ha Hb; [reflexivity|].
+  cbn [name_neutral_in forallb] in Ha, Hb. apply andb_prop in Ha as [Ha1 Ha2]. apply andb_prop in Hb as [Hb1 Hb2].
+  cbn [candidates_in]. unfold row_matches.
+  destruct (matches_name r a) as [[|]| |]; try discriminate.
+  destruct (matches_name r b) as [[|]| |]; try discriminate.
+  rewrite (IH Ha2 Hb2). reflexivity.
+Qed.
+
+Lemma dispatch_body_neutral : forall sniff parse a b data,
+  name_neutral a = true -> name_neutral b = true ->
+  dispatch_body sniff parse a data = dispatch_body sniff parse b data.
+Proof.
+  intros. unfold dispatch_body, inspect, inspect_in.
+  now rewrite (candidates_neutral sniff table a b data).
+Qed.
+
+(* T1 instance lemma: os.Stdin.Name() matches no name pattern of the regenerated table *)
+Lemma stdin_path_neutral : name_neutral stdin_path = true.
+Proof. vm_compute. reflexivity. Qed.
+
+Lemma drop_app_length : forall {A} (a b : list A), drop (length a) (a ++ b) = b.
+Proof. induction a; intros; cbn; auto. Qed.
+
+Lemma stdin_as_file : forall sniff parse argv0 q fs fs' r rest p data stdin',
+  match rest with [] => True | a :: _ => a = [] \/ a = [45] end ->
+  plain_arg p = true -> name_neutral p = true -> resolve fs' p = SReg data ->
+  stdout_of (dispatch_body sniff parse) argv0 (fst (main_run q fs (argv_of r rest) data))
+  = drop (length p + 2) (stdout_of (dispatch_body sniff parse) argv0 (fst (main_run q fs' [p] stdin'))).
+Proof.
+  intros sniff parse argv0 q fs fs' r rest p data stdin' Hrest Hp Hn Hr.
+  rewrite (stdin_run q fs r rest data Hrest).
+  rewrite (single_file_stdout _ argv0 q fs' p data stdin' Hp Hr).
+  unfold report_text. cbn [fst snd stdout_of flat_map out_of]. rewrite app_nil_r.
+  replace (p ++ [58; 32] ++ dispatch_body sniff parse p data)
+    with ((p ++ [58; 32]) ++ dispatch_body sniff parse p data) by now rewrite <- app_assoc.
+  replace (length p + 2)%nat with (length (p ++ [58; 32])) by (rewrite app_length; reflexivity).
+  rewrite drop_app_length.
+  apply dispatch_body_neutral; [apply stdin_path_neutral|assumption].
+Qed.
+
+(* ---------- bad entries ---------- *)
+(* the repaired code never dereferences a nil file, and only blocks on a FIFO that was
+   named explicitly as an argument *)
+Lemma inspect_file_repaired : forall p k s, snd (inspect_file repaired p k) = Some s -> s = Blocked p /\ k = SFifo.
+Proof. intros p k s. destruct k; cbn; intros H; try discriminate. inversion H. auto. Qed.
+
+Lemma main_loop_status : forall fs r args s, snd (main_loop repaired fs r args) = Some s ->
+  s = Exit 1 \/ exists p, In p args /\ resolve fs p = SFifo /\ s = Blocked p.
+Proof.
+  induction args as [|a args IH]; intros s H; cbn [main_loop] in H; [discriminate|].
+  destruct (resolve fs a) as [c|ch| | |] eqn:E.
+  - cbn [inspect_file] in H. rewrite seq_none in H. cbn [snd] in H.
+    destruct (IH s H) as [->|[p [Hin [Hr Hs]]]]; [now left|]. right. exists p. split; [now right|auto].
+  - destruct r.
+    + destruct (walk_top repaired ch a) as [e s0] eqn:Ew.
+      pose proof (walk_top_continues ch a) as Hs. rewrite Ew in Hs. cbn in Hs. subst s0.
+      rewrite seq_none in H. cbn [snd] in H.
+      destruct (IH s H) as [->|[p [Hin [Hr Hs]]]]; [now left|]. right. exists p. split; [now right|auto].
+    + cbn in H. inversion H. now left.
+  - cbn in H. inversion H. right. exists a. split; [now left|auto].
+  - cbn [inspect_file repaired q_nil_after_open] in H. rewrite seq_none in H. cbn [snd] in H.
+    destruct (IH s H) as [->|[p [Hin [Hr Hs]]]]; [now left|]. right. exists p. split; [now right|auto].
+  - cbn in H. inversion H. now left.
+Qed.
+
+Lemma parse_flags_rest : forall args r v r' v' rest,
+  parse_flags r v args = FOk r' v' rest -> forall x, In x rest -> In x args.
+Proof.
+  induction args as [|s args IH]; intros r v r' v' rest H x Hx; cbn [parse_flags] in H.
+  - inversion H; subst. destruct Hx.
+  - destruct s as [|c0 [|c s']]; try (inversion H; subst; exact Hx).
+    destruct (negb (c0 =? 45)); [inversion H; subst; exact Hx|].
+    destruct ((c =? 45) && is_nilb s'); [inversion H; subst; now right|].
+    destruct (if c =? 45 then s' else c :: s') as [|n0 tl]; [discriminate|].
+    destruct ((n0 =? 45) || (n0 =? 61)); [discriminate|].
+    destruct (split_eq tl) as [tl' value].
+    destruct (bytes_eqb (n0 :: tl') (bs "r")).
+    { destruct value as [x0|]; [destruct (parse_bool x0); [|discriminate]|]; right; eapply IH; eassumption. }
+    destruct (bytes_eqb (n0 :: tl') (bs "version")).
+    { destruct value as [x0|]; [destruct (parse_bool x0); [|discriminate]|]; right; eapply IH; eassumption. }
+    destruct (bytes_eqb (n0 :: tl') (bs "help") || bytes_eqb (n0 :: tl') (bs "h")); discriminate.
+Qed.
+
+Lemma never_crashes_blocks_only_on_named_fifo : forall fs argv stdin es st,
+  main_run repaired fs argv stdin = (es, st) ->
+  (forall p, st <> Crashed p) /\
+  (forall p, st = Blocked p -> In p argv /\ resolve fs p = SFifo).
+Proof.
+  intros fs argv stdin es st H. unfold main_run in H.
+  destruct (parse_flags false false argv) as [r v rest| |] eqn:Ef;
+    try (inversion H; subst; split; intros; congruence).
+  destruct v; [inversion H; subst; split; intros; congruence|].
+  cbv zeta in H.
+  match type of H with context [if ?c then _ else _] => destruct c end;
+    [inversion H; subst; split; intros; congruence|].
+  destruct (main_loop repaired fs r rest) as [e [s|]] eqn:El; cbn [finish] in H; inversion H; subst.
+  - pose proof (main_loop_status fs r rest st) as Hs. rewrite El in Hs. cbn [snd] in Hs.
+    destruct (Hs eq_refl) as [->|[p [Hin [Hr ->]]]]; split; intros; try congruence.
+    inversion H0; subst. split; [|assumption]. eapply parse_flags_rest; eassumption.
+  - split; intros; congruence.
+Qed.
+
+(* an entry that is not a regular file, a link to one, or a directory contributes nothing and
+   takes nothing away: the scan of a listing with such an entry reports what it reports without it *)
+Definition bad_entry (n : node) : bool :=
+  match n with LinkDir _ _ | LinkNone _ | Fifo _ | Sock _ => true | _ => false end.
+
+Lemma flat_map_insert_by_nil : forall {A B} (g : A -> list B) k v (l : list (bytes * A)),
+  g v = [] -> flat_map g (map snd (insert_by k v l)) = flat_map g (map snd l).
+Proof.
+  intros A B g k v l Hg. induction l as [|[k' v'] l IH]; cbn [insert_by map snd flat_map].
+  - rewrite Hg. reflexivity.
+  - destruct (bytes_leb k k'); cbn [map snd flat_map]; [rewrite Hg; reflexivity|now rewrite IH].
+Qed.
+
+Lemma bad_entry_changes_nothing : forall b ch d, bad_entry b = true ->
+  dfs_sorted_regular_files (b :: ch) d = dfs_sorted_regular_files ch d.
+Proof.
+  intros b ch d Hb. unfold dfs_sorted_regular_files, files_in, sort_listing.
+  cbn [map sort_by]. apply flat_map_insert_by_nil.
+  destruct b; try discriminate; reflexivity.
+Qed.
+
+(* ---------- the code before the repairs, and the depth limit: witnesses ---------- *)
+Definition witness_listing (bad : node) : list node :=
+  [Dir (bs "d") [Reg (bs "a") (bs "x"); bad; Reg (bs "z") (bs "y")]].
+
+Lemma pinned_dangling_link_crashes :
+  main_run pinned (witness_listing (LinkNone (bs "m"))) [bs "-r"; bs "d"] []
+  = ([Report (bs "d/a") (bs "x"); LogLine (bs "d/m")], Crashed (bs "d/m")).
+Proof. vm_compute. reflexivity. Qed.
+
+Lemma pinned_socket_crashes :
+  main_run pinned (witness_listing (Sock (bs "m"))) [bs "-r"; bs "d"] []
+  = ([Report (bs "d/a") (bs "x"); LogLine (bs "d/m")], Crashed (bs "d/m")).
+Proof. vm_compute. reflexivity. Qed.
+
+Lemma pinned_fifo_blocks :
+  main_run pinned (witness_listing (Fifo (bs "m"))) [bs "-r"; bs "d"] []
+  = ([Report (bs "d/a") (bs "x")], Blocked (bs "d/m")).
+Proof. vm_compute. reflexivity. Qed.
+
+Lemma repaired_on_witnesses : forall bad, In bad [LinkNone (bs "m"); Sock (bs "m"); Fifo (bs "m"); LinkDir (bs "m") [Reg (bs "i") []]] ->
+  main_run repaired (witness_listing bad) [bs "-r"; bs "d"] []
+  = ([Report (bs "d/a") (bs "x"); LogLine (bs "d/m"); Report (bs "d/z") (bs "y")], Exit 0).
+Proof. intros bad [<-|[<-|[<-|[<-|[]]]]]; vm_compute; reflexivity. Qed.
+
+Fixpoint chain_of (k : nat) (bottom : list node) : list node :=
+  match k with
+  | O => bottom
+  | S k' => [Dir (bs "a") (chain_of k' bottom)]
+  end.
+
+Definition deep_witness : list node :=
+  [Dir (bs "d") (chain_of (S (Z.to_nat max_depth)) [Reg (bs "f") (bs "x")])].
+Definition deep_listing : list node := chain_of (S (Z.to_nat max_depth)) [Reg (bs "f") (bs "x")].
+
+Lemma deep_witness_facts :
+  resolve deep_witness (bs "d") = SDir deep_listing /\
+  paths_ok_in deep_listing (bs "d") = true /\
+  height_in deep_listing = S (Z.to_nat max_depth) /\
+  length (dfs_sorted_regular_files deep_listing (bs "d")) = 1%nat /\
+  reports (fst (main_run repaired deep_witness [bs "-r"; bs "d"] [])) = [] /\
+  snd (main_run repaired deep_witness [bs "-r"; bs "d"] []) = Exit 0.
+Proof. vm_compute. repeat split; reflexivity. Qed.
+
+(* the hypotheses of the positive theorem are met by a tree with every kind of entry *)
+Definition example_listing : list node :=
+  [Reg (bs "b") (bs "1"); Dir (bs "_") [Fifo (bs "p"); Reg (bs "B") (bs "2"); LinkNone (bs "A")];
+   Sock (bs "s"); LinkFile (bs "a") (bs "3"); LinkDir (bs "l") [Reg (bs "i") (bs "4")]; Dir (bs "e") []].
+Lemma example_meets_hypotheses :
+  let fs := [Dir (bs "d") example_listing] in
+  plain_arg (bs "d") = true /\ forallb (arg_ok fs) [bs "d"] = true /\
+  flat_map (arg_files fs) [bs "d"]
+  = [(bs "d/_/B", bs "2"); (bs "d/a", bs "3"); (bs "d/b", bs "1")].
+Proof. vm_compute. repeat split; reflexivity. Qed.
+
+(* ---------- paths: Clean and Join on plain relative paths; os.Stat of an enumerated path ---------- *)
+Lemma bytes_eqb_refl : forall a, bytes_eqb a a = true.
+Proof. induction a as [|x a IH]; cbn; [reflexivity|]. now rewrite N.eqb_refl. Qed.
+
+Lemma bytes_eqb_eq : forall a b, bytes_eqb a b = true -> a = b.
+Proof.
+  induction a as [|x a IH]; intros [|y b] H; cbn in H; try discriminate; [reflexivity|].
+  apply andb_prop in H as [H1 H2]. apply N.eqb_eq in H1. subst. f_equal. now apply IH.
+Qed.
+
+Definition jn (cs : list bytes) : bytes := join [47] cs.
+
+Lemma name_ok_facts : forall a, name_ok a = true ->
+  a <> [] /\ is_nilb a = false /\ is_dot a = false /\ is_dotdot a = false /\ ~ In 47 a.
+Proof.
+  intros a H. unfold name_ok in H.
+  apply andb_prop in H as [H H4]. apply andb_prop in H as [H H3]. apply andb_prop in H as [H1 H2].
+  apply negb_true_iff in H1, H2, H3. repeat split; try assumption.
+  - intros ->. discriminate.
+  - intros Hin. rewrite forallb_forall in H4. specialize (H4 _ Hin). cbn in H4. discriminate.
+Qed.
+
+Lemma split_slash_noslash : forall a, ~ In 47 a -> split_slash a = [a].
+Proof.
+  induction a as [|c a IH]; intros H; [reflexivity|]. cbn [split_slash].
+  assert (c =? 47 = false) as -> by (apply N.eqb_neq; intros ->; apply H; now left).
+  rewrite IH by (intros Hi; apply H; now right). reflexivity.
+Qed.
+
+Lemma split_slash_app : forall a rest, ~ In 47 a -> split_slash (a ++ 47 :: rest) = a :: split_slash rest.
+Proof.
+  induction a as [|c a IH]; intros rest H; [reflexivity|]. cbn [app split_slash].
+  assert (c =? 47 = false) as -> by (apply N.eqb_neq; intros ->; apply H; now left).
+  rewrite IH by (intros Hi; apply H; now right). reflexivity.
+Qed.
+
+Lemma jn_cons : forall a b cs, jn (a :: b :: cs) = a ++ 47 :: jn (b :: cs).
+Proof. reflexivity. Qed.
+
+Lemma split_slash_jn : forall cs, cs <> [] -> Forall (fun a => ~ In 47 a) cs -> split_slash (jn cs) = cs.
+Proof.
+  induction cs as [|a cs IH]; intros Hne H; [congruence|].
+  inversion H; subst. destruct cs as [|b cs].
+  - unfold jn. cbn [join]. now apply split_slash_noslash.
+  - rewrite jn_cons, split_slash_app by assumption. f_equal. apply IH; [discriminate|assumption].
+Qed.
+
+Lemma jn_snoc : forall cs a, cs <> [] -> jn (cs ++ [a]) = jn cs ++ 47 :: a.
+Proof.
+  induction cs as [|c cs IH]; intros a Hne; [congruence|].
+  destruct cs as [|c2 cs]; [reflexivity|].
+  specialize (IH a ltac:(discriminate)).
+  change (jn ((c :: c2 :: cs) ++ [a])) with (c ++ 47 :: jn ((c2 :: cs) ++ [a])).
+  rewrite IH. change (jn (c :: c2 :: cs)) with (c ++ 47 :: jn (c2 :: cs)).
+  now rewrite <- app_assoc.
+Qed.
+
+Lemma fold_clean_plain : forall cs acc, Forall (fun a => name_ok a = true) cs ->
+  fold_left (clean_step false) cs acc = rev cs ++ acc.
+Proof.
+  induction cs as [|c cs IH]; intros acc H; [reflexivity|]. inversion H; subst.
+  cbn [fold_left rev]. destruct (name_ok_facts _ H2) as [_ [E1 [E2 [E3 _]]]].
+  unfold clean_step at 2. rewrite E1, E2, E3. cbn [orb].
+  rewrite IH by assumption. now rewrite <- app_assoc.
+Qed.
+
+Lemma clean_nonempty : forall p, p <> [] ->
+  clean p = render_path (is_rooted p) (clean_comps (is_rooted p) (split_slash p)).
+Proof. intros [|x p] H; [congruence|reflexivity]. Qed.
+
+Lemma path_join_nonempty : forall f a, f <> [] -> a <> [] -> path_join f a = clean (f ++ 47 :: a).
+Proof. intros [|x f] [|y a] H1 H2; try congruence. reflexivity. Qed.
+
+Lemma resolve_nonempty : forall fs arg, arg <> [] ->
+  resolve fs arg =
+    if too_long arg then SMissing
+    else if match rev (split_slash arg) with last :: _ :: _ => negb (real_comp last) | _ => false end
+         then match resolve_in fs (filter real_comp (split_slash arg)) with
+              | SDir ch => SDir ch | _ => SMissing end
+         else resolve_in fs (filter real_comp (split_slash arg)).
+Proof.
+  intros fs [|x a] H; [congruence|]. unfold resolve. cbv zeta.
+  destruct (too_long (x :: a)); [reflexivity|].
+  destruct (match rev (split_slash (x :: a)) with last :: _ :: _ => negb (real_comp last) | _ => false end);
+    [|reflexivity].
+  destruct (resolve_in fs (filter real_comp (split_slash (x :: a)))); reflexivity.
+Qed.
+
+Lemma jn_ne : forall a cs, a <> [] -> jn (a :: cs) <> [].
+Proof. intros [|x a] [|b cs] H; try congruence; discriminate. Qed.
+
+Lemma jn_not_rooted : forall a cs, a <> [] -> ~ In 47 a -> is_rooted (jn (a :: cs)) = false.
+Proof.
+  intros [|x a] cs H Hs; [congruence|].
+  assert (x =? 47 = false) by (apply N.eqb_neq; intros ->; apply Hs; now left).
+  destruct cs; cbn; assumption.
+Qed.
+
+Lemma clean_jn : forall cs, cs <> [] -> Forall (fun a => name_ok a = true) cs -> clean (jn cs) = jn cs.
+Proof.
+  intros cs Hne H. destruct cs as [|a cs]; [congruence|]. inversion H; subst.
+  destruct (name_ok_facts _ H2) as [Ha [_ [_ [_ Hs]]]].
+  rewrite clean_nonempty by now apply jn_ne.
+  rewrite jn_not_rooted by assumption.
+  assert (Hsp : split_slash (jn (a :: cs)) = a :: cs).
+  { apply split_slash_jn; [discriminate|].
+    eapply Forall_impl; [|exact H]. intros b Hb. apply (name_ok_facts _ Hb). }
+  rewrite Hsp.
+  unfold clean_comps. rewrite fold_clean_plain by assumption. rewrite app_nil_r, rev_involutive.
+  reflexivity.
+Qed.
+
+Lemma path_join_jn : forall cs a, cs <> [] -> Forall (fun a => name_ok a = true) cs -> name_ok a = true ->
+  path_join (jn cs) a = jn (cs ++ [a]).
+Proof.
+  intros cs a Hne H Ha. destruct cs as [|c cs]; [congruence|].
+  inversion H; subst.
+  rewrite path_join_nonempty; [|apply jn_ne; apply (name_ok_facts _ H2)|apply (name_ok_facts _ Ha)].
+  rewrite <- jn_snoc by discriminate. apply clean_jn.
+  - destruct cs; discriminate.
+  - apply Forall_app. split; [assumption|]. now constructor.
+Qed.
+
+Lemma filter_real_plain : forall cs, Forall (fun a => name_ok a = true) cs -> filter real_comp cs = cs.
+Proof.
+  induction 1 as [|a cs Ha H IH]; [reflexivity|]. cbn [filter].
+  destruct (name_ok_facts _ Ha) as [_ [E1 [E2 _]]]. unfold real_comp at 1. rewrite E1, E2. cbn [orb negb]. now rewrite IH.
+Qed.
+
+Lemma resolve_jn : forall fs cs, cs <> [] -> Forall (fun a => name_ok a = true) cs ->
+  too_long (jn cs) = false -> resolve fs (jn cs) = resolve_in fs cs.
+Proof.
+  intros fs cs Hne H Hl. destruct cs as [|a cs]; [congruence|]. inversion H; subst.
+  rewrite resolve_nonempty by (apply jn_ne; apply (name_ok_facts _ H2)).
+  rewrite Hl.
+  assert (Hsp : split_slash (jn (a :: cs)) = a :: cs).
+  { apply split_slash_jn; [discriminate|].
+    eapply Forall_impl; [|exact H]. intros b Hb. apply (name_ok_facts _ Hb). }
+  rewrite Hsp.
+  rewrite filter_real_plain by assumption.
+  assert (Hlast : match rev (a :: cs) with last :: _ :: _ => negb (real_comp last) | _ => false end = false).
+  { destruct (rev (a :: cs)) as [|l [|l2 t]] eqn:Er; try reflexivity.
+    assert (Hin : In l (a :: cs)) by (apply in_rev; rewrite Er; now left).
+    rewrite Forall_forall in H. specialize (H _ Hin).
+    destruct (name_ok_facts _ H) as [_ [E1 [E2 _]]]. unfold real_comp. rewrite E1, E2. reflexivity. }
+  rewrite Hlast. reflexivity.
+Qed.
+
+Lemma lookup_distinct : forall L c, names_distinct (map node_name L) = true -> In c L ->
+  lookup_name (node_name c) L = Some c.
+Proof.
+  induction L as [|x L IH]; intros c Hd Hin; [destruct Hin|].
+  cbn [map names_distinct] in Hd. apply andb_prop in Hd as [Hx Hd]. cbn [lookup_name].
+  destruct Hin as [->|Hin]; [now rewrite bytes_eqb_refl|].
+  destruct (bytes_eqb (node_name x) (node_name c)) eqn:E.
+  - apply bytes_eqb_eq in E. apply negb_true_iff in Hx.
+    assert (existsb (bytes_eqb (node_name x)) (map node_name L) = true).
+    { apply existsb_exists. exists (node_name c). split; [now apply in_map|]. rewrite E. apply bytes_eqb_refl. }
+    congruence.
+  - now apply IH.
+Qed.
+
+Lemma lookup_In : forall L a n, lookup_name a L = Some n -> In n L /\ node_name n = a.
+Proof.
+  induction L as [|x L IH]; intros a n H; cbn [lookup_name] in H; [discriminate|].
+  destruct (bytes_eqb (node_name x) a) eqn:E.
+  - inversion H; subst. split; [now left|now apply bytes_eqb_eq].
+  - destruct (IH _ _ H). split; [now right|assumption].
+Qed.
+
+Lemma tree_ok_children : forall n ch, tree_ok n = true -> stat n = SDir ch ->
+  names_distinct (map node_name ch) = true /\ forallb tree_ok ch = true.
+Proof.
+  intros n ch Hok Hs. destruct n; cbn in Hs; try discriminate; inversion Hs; subst;
+    cbn [tree_ok] in Hok; apply andb_prop in Hok as [_ H]; now apply andb_prop in H.
+Qed.
+
+(* every enumerated file below entry n of the directory jn cs: its path is jn (cs ++ name n :: rest),
+   short enough, and os.Stat finds the file along these names *)
+Lemma files_resolve : forall n cs p c,
+  cs <> [] -> Forall (fun a => name_ok a = true) cs ->
+  tree_ok n = true -> paths_ok n (jn cs) = true ->
+  In (p, c) (files_of (sort_tree n) (jn cs)) ->
+  exists rest, p = jn (cs ++ node_name n :: rest) /\ too_long p = false /\
+               Forall (fun a => name_ok a = true) (node_name n :: rest) /\
+               forall L, lookup_name (node_name n) L = Some n -> resolve_in L (node_name n :: rest) = SReg c.
+Proof.
+  induction n using node_ind2; intros cs p c0 Hne Hcs Hok Hp Hin;
+    try (cbn [sort_tree files_of] in Hin; destruct Hin; fail).
+  - (* Reg *)
+    cbn [sort_tree files_of] in Hin. destruct Hin as [Hin|[]]. inversion Hin; subst. clear Hin.
+    cbn [tree_ok node_name] in *. rewrite andb_true_r in Hok.
+    cbn [paths_ok node_name] in Hp. rewrite andb_true_r in Hp. apply negb_true_iff in Hp.
+    exists []. rewrite path_join_jn in * by assumption.
+    repeat split; try assumption; [now constructor|].
+    intros L HL. cbn [resolve_in]. rewrite HL. reflexivity.
+  - (* Dir *)
+    rewrite sort_tree_dir in Hin. cbn [files_of] in Hin.
+    apply in_flat_map in Hin as [c' [Hc' Hin]]. apply in_map_iff in Hc' as [c1 [<- Hc1]].
+    apply (proj1 (read_dir_In _ _)) in Hc1.
+    cbn [tree_ok node_name] in Hok. apply andb_prop in Hok as [Ha Hok]. apply andb_prop in Hok as [Hdist Hall].
+    cbn [paths_ok node_name] in Hp. apply andb_prop in Hp as [Hpl Hpc].
+    rewrite path_join_jn in * by assumption.
+    rewrite Forall_forall in H.
+    assert (Hcs' : Forall (fun a0 => name_ok a0 = true) (cs ++ [a])) by (apply Forall_app; split; [assumption|now constructor]).
+    destruct (H c1 Hc1 (cs ++ [a]) p c0) as [rest [Hp1 [Hp2 [Hp3 Hp4]]]]; try assumption.
+    + destruct cs; discriminate.
+    + rewrite forallb_forall in Hall. now apply Hall.
+    + rewrite forallb_forall in Hpc. now apply Hpc.
+    + exists (node_name c1 :: rest). cbn [node_name]. rewrite <- app_assoc in Hp1. cbn [app] in Hp1.
+      repeat split; try assumption; [now constructor|].
+      intros L HL. cbn [resolve_in]. rewrite HL. cbn [stat].
+      apply Hp4. now apply lookup_distinct.
+  - (* LinkFile *)
+    cbn [sort_tree files_of] in Hin. destruct Hin as [Hin|[]]. inversion Hin; subst. clear Hin.
+    cbn [tree_ok node_name] in *. rewrite andb_true_r in Hok.
+    cbn [paths_ok node_name] in Hp. rewrite andb_true_r in Hp. apply negb_true_iff in Hp.
+    exists []. rewrite path_join_jn in * by assumption.
+    repeat split; try assumption; [now constructor|].
+    intros L HL. cbn [resolve_in]. rewrite HL. reflexivity.
+Qed.
+
+Lemma enumerated_paths_resolve : forall fs d ch p c,
+  name_ok d = true -> listing_ok fs = true -> resolve fs d = SDir ch ->
+  paths_ok_in ch d = true ->
+  In (p, c) (dfs_sorted_regular_files ch d) -> resolve fs p = SReg c /\ plain_arg p = plain_arg d.
+Proof.
+  intros fs d ch p c Hd Hfs Hr Hp Hin.
+  unfold paths_ok_in in Hp. apply andb_prop in Hp as [Hdl Hpc]. apply negb_true_iff in Hdl.
+  assert (Hd1 : Forall (fun a => name_ok a = true) [d]) by now constructor.
+  change d with (jn [d]) in Hr, Hdl, Hpc, Hin.
+  rewrite resolve_jn in Hr by (assumption || discriminate).
+  cbn [resolve_in] in Hr. destruct (lookup_name d fs) as [n|] eqn:El; [|discriminate].
+  destruct (lookup_In _ _ _ El) as [Hnin Hnn].
+  unfold listing_ok in Hfs. apply andb_prop in Hfs as [_ Hall]. rewrite forallb_forall in Hall.
+  destruct (tree_ok_children n ch (Hall _ Hnin) Hr) as [Hdist Hch].
+  unfold dfs_sorted_regular_files, files_in in Hin. rewrite sort_listing_eq in Hin.
+  apply in_flat_map in Hin as [c' [Hc' Hin]]. apply in_map_iff in Hc' as [c1 [<- Hc1]].
+  apply (proj1 (read_dir_In _ _)) in Hc1.
+  destruct (files_resolve c1 [d] p c) as [rest [Hp1 [Hp2 [Hp3 Hp4]]]]; try assumption; try discriminate.
+  - rewrite forallb_forall in Hch. now apply Hch.
+  - rewrite forallb_forall in Hpc. now apply Hpc.
+  - cbn [app] in Hp1. split.
+    + rewrite Hp1. rewrite Hp1 in Hp2. rewrite resolve_jn; [|discriminate|now constructor|assumption].
+      cbn [resolve_in]. rewrite El. rewrite Hr. apply Hp4. now apply lookup_distinct.
+    + rewrite Hp1. rewrite jn_cons. destruct (name_ok_facts _ Hd) as [Hne _].
+      destruct d as [|x d']; [congruence|]. reflexivity.
+Qed.
+
+(* ---------- exactly once: the enumerated paths are pairwise different ---------- *)
+Lemma jn_inj : forall l1 l2, l1 <> [] -> l2 <> [] ->
+  Forall (fun a => ~ In 47 a) l1 -> Forall (fun a => ~ In 47 a) l2 -> jn l1 = jn l2 -> l1 = l2.
+Proof.
+  intros l1 l2 H1 H2 F1 F2 E.
+  rewrite <- (split_slash_jn l1 H1 F1), <- (split_slash_jn l2 H2 F2). now rewrite E.
+Qed.
+
+Lemma nodup_app : forall {A} (a b : list A), NoDup a -> NoDup b ->
+  (forall x, In x a -> In x b -> False) -> NoDup (a ++ b).
+Proof.
+  induction a as [|x a IH]; intros b Ha Hb Hd; [exact Hb|].
+  inversion Ha; subst. cbn [app]. constructor.
+  - intros Hin. apply in_app_or in Hin as [Hin|Hin]; [contradiction|]. apply (Hd x); [now left|assumption].
+  - apply IH; try assumption. intros y Hy1 Hy2. apply (Hd y); [now right|assumption].
+Qed.
+
+Lemma names_distinct_NoDup : forall l, names_distinct l = true -> NoDup l.
+Proof.
+  induction l as [|a l IH]; intros H; [constructor|].
+  cbn [names_distinct] in H. apply andb_prop in H as [H1 H2]. constructor; [|now apply IH].
+  intros Hin. apply negb_true_iff in H1.
+  assert (existsb (bytes_eqb a) l = true) by (apply existsb_exists; exists a; split; [assumption|apply bytes_eqb_refl]).
+  congruence.
+Qed.
+
+Lemma nodup_flat_map : forall {X} (g : node -> list X) l,
+  NoDup (map node_name l) ->
+  (forall c, In c l -> NoDup (g c)) ->
+  (forall c1 c2 x, In c1 l -> In c2 l -> In x (g c1) -> In x (g c2) -> node_name c1 = node_name c2) ->
+  NoDup (flat_map g l).
+Proof.
+  intros X g. induction l as [|c l IH]; intros Hn Hg Hd; [constructor|].
+  cbn [map] in Hn. inversion Hn as [|? ? Hnotin Hrest]; subst. cbn [flat_map]. apply nodup_app.
+  - apply Hg. now left.
+  - apply IH; [assumption|intros; apply Hg; now right|].
+    intros c1 c2 x Hi1 Hi2. apply Hd; now right.
+  - intros x Hx1 Hx2. apply in_flat_map in Hx2 as [c2 [Hc2 Hx2]].
+    apply Hnotin. rewrite (Hd c c2 x); [now apply in_map|now left|now right|assumption|assumption].
+Qed.
+
+Lemma noslash_of_ok : forall l, Forall (fun a => name_ok a = true) l -> Forall (fun a : bytes => ~ In 47 a) l.
+Proof. intros l H. eapply Forall_impl; [|exact H]. intros a Ha. apply (name_ok_facts _ Ha). Qed.
+
+Lemma sorted_children_names : forall ch, names_distinct (map node_name ch) = true ->
+  NoDup (map node_name (map sort_tree (read_dir ch))).
+Proof.
+  intros ch H. rewrite map_map. rewrite (map_ext (fun x => node_name (sort_tree x)) node_name sort_tree_name).
+  eapply Permutation_NoDup; [apply Permutation_sym, Permutation_map, read_dir_perm|].
+  now apply names_distinct_NoDup.
+Qed.
+
+Lemma map_fst_flat_map : forall {A B C} (h : A -> list (B * C)) l,
+  map fst (flat_map h l) = flat_map (fun x => map fst (h x)) l.
+Proof. intros. induction l as [|x l IH]; [reflexivity|]. cbn [flat_map]. now rewrite map_app, IH. Qed.
+
+(* paths below two entries of one directory that share a path have the same name *)
+Lemma shared_path_same_name : forall c1 c2 cs p,
+  cs <> [] -> Forall (fun a => name_ok a = true) cs ->
+  tree_ok c1 = true -> tree_ok c2 = true -> paths_ok c1 (jn cs) = true -> paths_ok c2 (jn cs) = true ->
+  In p (map fst (files_of (sort_tree c1) (jn cs))) -> In p (map fst (files_of (sort_tree c2) (jn cs))) ->
+  node_name c1 = node_name c2.
+Proof.
+  intros c1 c2 cs p Hne Hcs Ht1 Ht2 Hp1 Hp2 H1 H2.
+  apply in_map_iff in H1 as [[p1 x1] [E1 H1]]. apply in_map_iff in H2 as [[p2 x2] [E2 H2]].
+  cbn [fst] in E1, E2. subst p1 p2.
+  destruct (files_resolve c1 cs p x1 Hne Hcs Ht1 Hp1 H1) as [r1 [Ea [_ [Fa _]]]].
+  destruct (files_resolve c2 cs p x2 Hne Hcs Ht2 Hp2 H2) as [r2 [Eb [_ [Fb _]]]].
+  rewrite Ea in Eb. apply jn_inj in Eb.
+  - apply app_inv_head in Eb. now inversion Eb.
+  - destruct cs; discriminate.
+  - destruct cs; discriminate.
+  - apply noslash_of_ok. apply Forall_app. split; assumption.
+  - apply noslash_of_ok. apply Forall_app. split; assumption.
+Qed.
+
+Lemma files_of_nodup : forall n cs,
+  cs <> [] -> Forall (fun a => name_ok a = true) cs ->
+  tree_ok n = true -> paths_ok n (jn cs) = true ->
+  NoDup (map fst (files_of (sort_tree n) (jn cs))).
+Proof.
+  induction n using node_ind2; intros cs Hne Hcs Hok Hp;
+    try (cbn [sort_tree files_of map]; repeat constructor; intros []; fail).
+  rewrite sort_tree_dir. cbn [files_of]. rewrite map_fst_flat_map.
+  cbn [tree_ok node_name] in Hok. apply andb_prop in Hok as [Ha Hok]. apply andb_prop in Hok as [Hdist Hall].
+  cbn [paths_ok node_name] in Hp. apply andb_prop in Hp as [Hpl Hpc].
+  rewrite path_join_jn in * by assumption.
+  rewrite forallb_forall in Hall, Hpc. rewrite Forall_forall in H.
+  assert (Hcs' : Forall (fun a0 => name_ok a0 = true) (cs ++ [a])) by (apply Forall_app; split; [assumption|now constructor]).
+  assert (Hne' : cs ++ [a] <> []) by (destruct cs; discriminate).
+  (* work over the unsorted children, composing with sort_tree *)
+  rewrite flat_map_concat_map, map_map, <- flat_map_concat_map.
+  apply nodup_flat_map.
+  - eapply Permutation_NoDup; [apply Permutation_sym, Permutation_map, read_dir_perm|].
+    now apply names_distinct_NoDup.
+  - intros c Hc. apply (proj1 (read_dir_In _ _)) in Hc. apply H; auto.
+  - intros c1 c2 x Hc1 Hc2 Hx1 Hx2.
+    apply (proj1 (read_dir_In _ _)) in Hc1. apply (proj1 (read_dir_In _ _)) in Hc2.
+    eapply shared_path_same_name; eauto.
+Qed.
+
+Lemma enumerated_paths_distinct : forall d ch,
+  name_ok d = true -> listing_ok ch = true -> paths_ok_in ch d = true ->
+  NoDup (map fst (dfs_sorted_regular_files ch d)).
+Proof.
+  intros d ch Hd Hch Hp.
+  unfold listing_ok in Hch. apply andb_prop in Hch as [Hdist Hall].
+  unfold paths_ok_in in Hp. apply andb_prop in Hp as [_ Hpc].
+  rewrite forallb_forall in Hall, Hpc.
+  assert (Hd1 : Forall (fun a => name_ok a = true) [d]) by now constructor.
+  unfold dfs_sorted_regular_files, files_in. rewrite sort_listing_eq. rewrite map_fst_flat_map.
+  rewrite flat_map_concat_map, map_map, <- flat_map_concat_map.
+  change d with (jn [d]) in *.
+  apply nodup_flat_map.
+  - eapply Permutation_NoDup; [apply Permutation_sym, Permutation_map, read_dir_perm|].
+    now apply names_distinct_NoDup.
+  - intros c Hc. apply (proj1 (read_dir_In _ _)) in Hc. apply files_of_nodup; auto; discriminate.
+  - intros c1 c2 x Hc1 Hc2 Hx1 Hx2.
+    apply (proj1 (read_dir_In _ _)) in Hc1. apply (proj1 (read_dir_In _ _)) in Hc2.
+    eapply (shared_path_same_name c1 c2 [d]); eauto; discriminate.
+Qed.
